@@ -151,6 +151,9 @@ impl Stats {
                                 ok_nonempty += 1;
                             }
                         }
+                        if r.shared_src && scn.clients.len() > 1 {
+                            self.inc("fault:F7-shared-source-image.fired", 1);
+                        }
                         if r.src.panic_at != 0 || r.dst.panic_at != 0 {
                             self.inc("fault:F4-panic-in-user-container.configured", 1);
                         }
